@@ -64,7 +64,8 @@ Definition heap_unproven : list string := [
 
 (* ---- what Model/ObjGraph.v transcribes ----
    pin_copied_containers -> shallow_copy: _buffers (and _modules) dicts copied, _parameters dict SHARED
-   pin_copy_accessors    -> acc_simple / acc_flag / acc_grid / acc_condition / acc_unlink (all: shallow copy + setter on the copy)
+   pin_copy_accessors    -> acc_simple / acc_flag / acc_condition (shallow copy + setter on the copy), acc_grid / acc_unlink / acc_data
+                            ("own _parameters": the copy also gets its own _parameters dict, shallow_copy_own)
    pin_copy_fingerprints -> the bodies of those methods and of clone / __deepcopy__ / data *)
 (* SpatialTransform.__copy__: the __dict__ entries that are copied (every other container is shared) *)
 Definition pin_copied_containers : list string := ["_buffers"%string; "_non_persistent_buffers_set"%string; "_modules"%string].
@@ -81,9 +82,9 @@ Definition pin_copy_accessors : list (string * string) := [
   ("Cube.extent"%string, "extent_"%string);
   ("Cube.origin"%string, "origin_"%string);
   ("SpatialTransform.condition"%string, "condition_"%string);
-  ("SpatialTransform.grid"%string, "grid_"%string);
+  ("SpatialTransform.grid"%string, "own _parameters; grid_"%string);
   ("ParametricTransform.link"%string, "link_"%string);
-  ("ParametricTransform.unlink"%string, "unlink_"%string)].
+  ("ParametricTransform.unlink"%string, "own _parameters; unlink_"%string)].
 
 Definition pin_copy_fingerprints : list (string * string) := [
   ("Grid.clone"%string, "ee3bc09c68b2fd05e9e1"%string);
@@ -111,11 +112,11 @@ Definition pin_copy_fingerprints : list (string * string) := [
   ("SpatialTransform.__copy__"%string, "64ba524560ce22a1e37b"%string);
   ("SpatialTransform.condition"%string, "836265ae7504cb7fdf35"%string);
   ("SpatialTransform.condition_"%string, "97668fc9fda1a64a748c"%string);
-  ("SpatialTransform.grid"%string, "e6ba9fc48f79863b1d14"%string);
-  ("ParametricTransform.data"%string, "47b4a565fa9720ddfef5"%string);
+  ("SpatialTransform.grid"%string, "ec8057ec25614060024b"%string);
+  ("ParametricTransform.data"%string, "0e375c85908eb63bc598"%string);
   ("ParametricTransform.data_"%string, "48d3f3a1126f605dd3d3"%string);
   ("ParametricTransform.link"%string, "17b30309959fae7e117f"%string);
-  ("ParametricTransform.unlink"%string, "4b83e61b2f180e4eebfd"%string);
+  ("ParametricTransform.unlink"%string, "27d5611907997f568aeb"%string);
   ("ParametricTransform.unlink_"%string, "859e2bf9a489ecad3671"%string);
   ("DataTensor.__copy__"%string, "fe0de03ac176f1f8c5e2"%string);
   ("DataTensor.__deepcopy__"%string, "6468ea5ba8a4230464dc"%string)].
